@@ -397,11 +397,6 @@ package martian
 //@   modifies ctx.mu.rheld
 //@   ensures result == ctx.apiRequest && ctxIdle(ctx)
 
-// errors made by the standard library are never *MultiError values
-//@ extern func fmt.Errorf
-//@   ensures result != nil && !typeis(result, *MultiError)
-//@ extern func errors.New
-//@   ensures result != nil && !typeis(result, *MultiError)
 
 // skip-logging mark of a request's context (C15), tied to NewContext / SkippingLogging by definition
 //@ specfunc skipMarked(req *http.Request) bool
